@@ -183,7 +183,7 @@ pub fn c12(ctx: &mut Ctx, tier: &str, seed: u64) {
             }
         }
         // replacing the file name by a single valid name
-        let bases: Vec<Vec<u8>> = gen::bases(win, tier, seed).into_iter().filter(|b| well_formed(win, b)).collect();
+        let bases: Vec<Vec<u8>> = gen::bases(win, tier, seed).into_iter().filter(|b| !win || spec::win_complete_prefix(b)).collect();
         let f = spec::forbidden(win);
         let names: Vec<Vec<u8>> = gen::names(tier).into_iter().filter(|n| !n.is_empty() && n != b"." && n != b".." && !n.iter().any(|b| f.contains(b))).collect();
         for b in &bases {
